@@ -6,7 +6,7 @@ import string
 from .. import explore
 from ..common import CheckResult, BASE_ASSUMPTIONS, HarnessError
 from ..findings import Failure
-from ..model import norm
+from ..model import norm, header42
 from . import diffcommon
 
 KEYWORDS = {"auto", "break", "case", "char", "const", "continue", "default", "do", "double", "else", "enum", "extern",
@@ -241,6 +241,21 @@ def sample_task(task):
     return n, out, len(ids)
 
 
+def collision_files():
+    """Files whose identifiers of different classes coincide up to case, to an affix or to a keyword stem: a macro SIZE
+    beside a variable size used as an array dimension, a type t_item beside a variable item and a macro T_ITEM, a
+    function ft_len beside a variable len and a macro LEN.  No rule may relate two names by their spelling."""
+    h = header42.header_text("collide.c") + "\n"
+    a = (h + "#include <unistd.h>\n#define SIZE 10\n#define LEN 4\n#define T_ITEM 2\n\n"
+         "static int\tft_len(char *str, int size, int len)\n{\n\tchar\tbuf[size];\n\tint\t\ttab[LEN];\n\tint\t\titem;\n\n"
+         "\titem = T_ITEM;\n\ttab[0] = len + SIZE;\n\tbuf[0] = str[item];\n\treturn (tab[0] + buf[0]);\n}\n\n"
+         "int\tmain(void)\n{\n\treturn (ft_len(\"abc\", 3, 1));\n}\n")
+    hh = header42.header_text("collide.h") + "\n"
+    b = (hh + "#ifndef COLLIDE_H\n# define COLLIDE_H\n\n# define ITEM 1\n# define item_max 8\n\ntypedef struct s_item\n{\n\tint\t\titem;\n"
+         "\tchar\t*s_item;\n}\tt_item;\n\nint\t\tft_item(t_item *item, int t_item_count);\n\n#endif\n")
+    return [("collide.c", a), ("collide.h", b)]
+
+
 def run(tier, seed):
     st = explore.Stats()
     files = diffcommon.carrier_files(tier, 60 if tier == "quick" else 600, 60 if tier == "quick" else 0)
@@ -255,6 +270,7 @@ def run(tier, seed):
             failures.append(Failure("C18", label, f"{t[0]}: {detail[:300]}", {"fname": t[0], "text": text, "base": base_text}))
     from .. import corpus
     smp = [(fn, tx, 4 if tier == "quick" else 40) for fn, tx in corpus.samples()]
+    smp += [(fn, tx, 40) for fn, tx in collision_files()]
     sres = explore.pmap(sample_task, smp, chunksize=1)
     nsid = 0
     for (fn, tx, _), (n, out, k) in zip(smp, sres):
